@@ -239,6 +239,48 @@ def keepalive_twin(v11: bool, ci: int, head: bool, si: int, cl: int) -> bool:
 
 
 # ---- C. Message.should_close on a symbolic Connection value ------------------------------------------
+def gthread_second(cl: int, n1: int, n2: int, nwait: int) -> bool:
+    """
+    pre: cl in (-1, 0, 1, 2) and 0 <= n1 <= 2 and 0 <= n2 <= 2 and 0 <= nwait <= 1
+    post: __return__
+    """
+    # two requests on one kept-alive gthread connection (the connection goes through the poller - non-blocking - in
+    # between): both responses are complete and well framed, and every byte was sent on a blocking socket (a sendall() on
+    # a non-blocking socket may stop short, which would cut the response)
+    from engine.stubs.recsock import WAIT
+    cl, n1, n2, nwait = pick(cl, -1, 2), pick(n1, 0, 2), pick(n2, 0, 2), pick(nwait, 0, 1)
+    calls = []
+
+    def app(environ, start_response):
+        calls.append(environ["RAW_URI"])
+        hdrs = [("Content-Type", "text/plain")]
+        if cl >= 0:
+            hdrs.append(("Content-Length", str(cl)))
+        start_response("200 OK", hdrs)
+        return [b"ab"[:n1], b"cd"[:n2]]
+    cfg = W.make_cfg(keepalive=2, threads=2, worker_connections=4)
+    w = W.thread_worker(cfg, app)
+    w._keep.clear()
+    r1 = b"GET /one HTTP/1.1\r\nHost: h\r\n\r\n"
+    r2 = b"GET /two HTTP/1.1\r\nHost: h\r\n\r\n"
+    c = RecSock([r1, r2[:9]] + [WAIT] * nwait + [r2[9:]])
+    W.gthread_serve(w, c, max_dispatch=5)
+    body = (b"ab"[:n1] + b"cd"[:n2])
+    want = body if cl < 0 else body[:cl]
+    if cl > len(body):
+        return True            # declared more than delivered: not a well-behaved application, outside the property
+    try:
+        rs = hr.parse_stream(c.wire(), [False, False])
+    except hr.Bad:
+        return False
+    if calls != ["/one", "/two"] or len(rs) != 2 or c.closed < 1:
+        return False
+    for r in rs:
+        if not r["complete"] or r["body"] != want:
+            return False
+    return all(b is True or b == 1 for b in c.blocking_at_send)
+
+
 def conn_value_ok(v):
     for ch in v:
         c = ord(ch)
@@ -323,6 +365,9 @@ OBLIGATIONS = [
     Ob("C02.keepalive.twin", "keepalive_twin", cases=[{"kind": "gthread", "keepalive": 2, "v11": True},
                                                       {"kind": "async", "keepalive": 2, "v11": True}],
        expect="refute", timeout=300),
+    Ob("C02.gthread_second", "gthread_second", timeout=600,
+       bound="two requests on one kept-alive gthread connection, the second arriving in two segments (with / without an EAGAIN in "
+             "between), Content-Length absent / 0..2, two body pieces of 0..2 bytes"),
     Ob("C02.req_should_close", "req_should_close",
        cases={"quick": [{"core": c, "pad": 1} for c in ("close", "keep-alive", "x")],
               "thorough": [{"core": c, "pad": 1} for c in ("close", "keep-alive", "Close", "KEEP-ALIVE", "x", "")]},
